@@ -2203,7 +2203,7 @@ func vC17QueueKeys(q *queue.ProvideQueue) ([]mh.Multihash, error) {
 
 func TestVerif_C17_restart(t *testing.T) {
 	vh.Run(t, vh.Spec{Prop: "C17", Unit: "restart", Quick: 24, Thorough: 700, CostMs: 60,
-		Rule:    "PRNG scenario: 300-1500 peers, 20-400 ProvideOnce keys + 0-200 StartProviding keys (none in every third case) handed to a first provider whose provide queue cannot drain before Close (one worker, 1-3 connections, recipients taking 150-400 ms; Close 1-40 s or 0-50 ms after the hand-over); queue content sampled right before Close; a second provider on the same datastore/keystore with resume (default) must advertise every sampled key completely within 30 virtual minutes and, over the 2.4 virtual hours it runs, re-advertise every key of the keystore (the StartProviding keys) in every window of interval + max delay + slack; non-trivial = >= 1 key was still queued at Close; distinct by parameter tuple + queued count",
+		Rule:    "PRNG scenario: 300-1500 peers, 20-400 ProvideOnce keys + 0-200 StartProviding keys (none in every third case) handed to a first provider whose provide queue cannot drain before Close (one worker, 1-3 connections, recipients taking 150-400 ms; Close 1-40 s or 0-50 ms after the hand-over); queue content sampled right before Close; a second provider on the same datastore/keystore with resume (default) must advertise every sampled key completely within 30 virtual minutes and, over the 2.4 virtual hours it runs, re-advertise every key of the keystore (the StartProviding keys) in every window of interval + max delay + slack; every fourth case runs both instances in no-schedule mode (reprovide interval 0: no window obligation, the resume obligation unchanged); non-trivial = >= 1 key was still queued at Close; distinct by parameter tuple + queued count",
 		Clauses: []string{"selfcheck", "restart-resume", "recipient-reported", "payload"}},
 		func(c *vh.Case) {
 			if !vC17SelfCheck(c) {
@@ -2224,6 +2224,14 @@ func TestVerif_C17_restart(t *testing.T) {
 			if c.Idx%2 == 0 {
 				closeAfter = time.Duration(1+c.R.Intn(40)) * time.Second
 			}
+			// every fourth case: both instances in no-schedule mode (reprovide interval 0). No cycle exists there,
+			// but "work still queued at Close is resumed after a restart" holds all the same.
+			noSched := c.Idx%4 == 3
+			var mode []Option
+			if noSched {
+				mode = []Option{WithReprovideInterval(0)}
+			}
+			c.Set("no_schedule_mode", noSched)
 			c.Set("first_instance", fmt.Sprintf("workers 1/0/0 conns=%d, Close %v after hand-over, %d StartProviding keys", w1.conns, closeAfter, nStart))
 			var sim *vC17Sim
 			var queued, kept []int32
@@ -2239,7 +2247,7 @@ func TestVerif_C17_restart(t *testing.T) {
 					c.Fail("api-error", "NewKeystore: %v", err)
 					return
 				}
-				prov1, err := New(sim.options(w1, WithDatastore(provDs), WithKeystore(ks1))...)
+				prov1, err := New(sim.options(w1, append([]Option{WithDatastore(provDs), WithKeystore(ks1)}, mode...)...)...)
 				if err != nil {
 					c.Fail("api-error", "New: %v", err)
 					return
@@ -2288,14 +2296,16 @@ func TestVerif_C17_restart(t *testing.T) {
 				}
 				tRestart = sim.now()
 				w2 := vC17WorkerConfigs[c.R.Intn(len(vC17WorkerConfigs))]
-				prov2, err := New(sim.options(w2, WithDatastore(provDs), WithKeystore(ks2))...)
+				prov2, err := New(sim.options(w2, append([]Option{WithDatastore(provDs), WithKeystore(ks2)}, mode...)...)...)
 				if err != nil {
 					c.Fail("api-error", "New (restart): %v", err)
 					ks2.Close()
 					return
 				}
 				c.Logf("+%v second instance started (workers %d/%d/%d)", tRestart.Round(time.Millisecond), w2.max, w2.periodic, w2.burst)
-				kept = startKeys
+				if !noSched {
+					kept = startKeys
+				}
 				// two full reprovide windows: the keys of the keystore stay kept across the restart
 				sim.sleepUntil(tRestart + 2*(vC17Interval+vC17MaxDelay+vC17SlackBase+vC17BatchCap) + time.Minute)
 				sim.rest()
@@ -2337,6 +2347,9 @@ func TestVerif_C17_restart(t *testing.T) {
 			}
 			sim.mu.Unlock()
 			c.Obs("keys_queued_at_close", len(queued))
+			if noSched {
+				c.Obs("keys_queued_at_close_in_no_schedule_mode", len(queued))
+			}
 			c.Obs("keys_kept_across_restart", len(kept))
 			sim.evaluate(end, true)
 			if len(queued) > 0 {
